@@ -369,6 +369,8 @@ func newEnv(c *suiteCtx, cfg proxyCfg) (*testEnv, error) {
 		}
 	}
 	o.Session.Cookie.Minimal = cfg.CookieMinimal
+	// deployment options the properties do not mention take non-default values in most environments
+	e.varyDeployment(o)
 	// the options under test are the ones the real configuration loader produces for these settings
 	o = e.viaConfigPath(o)
 	if err := validation.Validate(o); err != nil {
@@ -475,6 +477,7 @@ type reqSpec struct {
 	Body       string
 	RemoteAddr string
 	TLS        bool
+	Literal    bool // the target is an arbitrary (application) path under test: never re-mounted by deployTarget
 }
 
 type respView struct {
@@ -488,7 +491,64 @@ type respView struct {
 	raw      *http.Response
 }
 
+// deployTarget: the suites write request targets for the default deployment (/oauth2, /ping, /ready); an environment
+// that mounts the proxy's endpoints elsewhere (varyDeployment) gets the same request at ITS prefix and paths
+func (e *testEnv) deployTarget(t string) string {
+	if e.opts == nil {
+		return t
+	}
+	path, rest := t, ""
+	if i := strings.IndexAny(t, "?#"); i >= 0 {
+		path, rest = t[:i], t[i:]
+	}
+	switch {
+	case e.opts.ProxyPrefix != "/oauth2" && (path == "/oauth2" || strings.HasPrefix(path, "/oauth2/")):
+		return e.opts.ProxyPrefix + strings.TrimPrefix(path, "/oauth2") + rest
+	case e.opts.PingPath != "/ping" && path == "/ping":
+		return e.opts.PingPath + rest
+	case e.opts.ReadyPath != "/ready" && path == "/ready":
+		return e.opts.ReadyPath + rest
+	}
+	return t
+}
+
+var deploySeq atomic.Int64
+
+// varyDeployment picks, per environment, non-default values for options no property mentions: where the proxy's own
+// endpoints are mounted, health-check extras, what the pages show, what is logged.  VERIF_DEPLOY=default switches it off.
+func (e *testEnv) varyDeployment(o *options.Options) {
+	if os.Getenv("VERIF_DEPLOY") == "default" {
+		return
+	}
+	h := hash64(fmt.Sprintf("deploy|%d|%s|%d", e.c.seed, e.c.name, deploySeq.Add(1)))
+	pick := func(n uint64) uint64 { v := h % n; h = h/n + 0x9E3779B97F4A7C15*(h%7+1); return v }
+	switch pick(3) {
+	case 1:
+		o.ProxyPrefix = "/auth"
+	case 2:
+		o.ProxyPrefix = "/_o2p/x"
+	}
+	if pick(2) == 1 {
+		o.PingPath, o.ReadyPath = "/healthz", "/readyz"
+	}
+	o.GCPHealthChecks = pick(3) == 1
+	o.Templates.Debug = pick(3) == 1
+	switch pick(3) {
+	case 1:
+		o.Templates.Banner, o.Templates.Footer = "-", "-"
+	case 2:
+		o.Templates.Banner, o.Templates.Footer = "Sign in <b>here</b> & now", "© \"ops\" <team>"
+	}
+	o.Logging.RequestEnabled = pick(3) != 1
+	o.Logging.AuthEnabled = pick(3) != 1
+	o.Logging.SilencePing = pick(2) == 1
+	e.c.count("deploy:prefix:" + o.ProxyPrefix)
+}
+
 func (e *testEnv) buildRequest(rs reqSpec) (*http.Request, error) {
+	if !rs.Literal {
+		rs.Target = e.deployTarget(rs.Target)
+	}
 	method := rs.Method
 	if method == "" {
 		method = "GET"
